@@ -328,7 +328,66 @@ def _similar_chunk(args):
     return part
 
 
+def run_giant(size, flat):
+    """One arch `size` units across at flatness `flat`: close to a million pieces.  A list that
+    long is judged in floating point with a guard band (a piece is reported only when an inner
+    control point is clearly - by more than one part in a million - farther than the flatness
+    from its chord) and on the survival of the two original nodes; returns ([message], pieces)."""
+    plot_utils = _lib()
+    first = [[0.0, 0.0], [0.0, 0.0], [0.0, size]]
+    last = [[size, size], [size, 0.0], [size, 0.0]]
+    s_p = [first, last]
+    desc = f"subdivideCubicPath(<one arch {size} units across>, {flat})"
+    try:
+        with core.watchdog(300.0):
+            plot_utils.subdivideCubicPath(s_p, flat)
+    except core.CaseTimeout:
+        return [f"{desc} did not return within 300 s"], 0
+    except Exception as exc:                # pylint: disable=broad-except
+        return [f"{desc} raised {type(exc).__name__}: {exc}"], 0
+    out = []
+    if s_p[0] is not first or s_p[-1] is not last or list(first[1]) != [0.0, 0.0] or \
+            list(last[1]) != [size, 0.0]:
+        out.append(f"{desc}: the original end nodes did not survive in place")
+    limit = flat * flat * (1 + 1e-6)
+    worst = 0.0
+    bad_pieces = 0
+    for k in range(len(s_p) - 1):
+        (x_0, y_0), (x_3, y_3) = s_p[k][1], s_p[k + 1][1]
+        d_x, d_y = x_3 - x_0, y_3 - y_0
+        len2 = d_x * d_x + d_y * d_y
+        for p_x, p_y in (s_p[k][2], s_p[k + 1][0]):
+            r_x, r_y = p_x - x_0, p_y - y_0
+            par = (r_x * d_x + r_y * d_y) / len2 if len2 else 0.0
+            par = 0.0 if par < 0 else (1.0 if par > 1 else par)
+            e_x, e_y = r_x - par * d_x, r_y - par * d_y
+            dist2 = e_x * e_x + e_y * e_y
+            if dist2 > limit:
+                bad_pieces += 1
+                worst = max(worst, dist2)
+    if bad_pieces:
+        out.append(f"{desc}: of {len(s_p) - 1} pieces, {bad_pieces} inner control points are farther "
+                   f"than the flatness from their chord (worst {worst ** 0.5})")
+    return out, len(s_p) - 1
+
+
+def _giant_chunk(items):
+    part = core.Part()
+    for size, flat in items:
+        bad, n_pieces = run_giant(size, flat)
+        part.count("calls")
+        part.count("nontrivial")
+        part.count("states", n_pieces)
+        part.count("transitions", n_pieces)
+        part.counters["max_pieces_in_one_call"] = n_pieces
+        for msg in bad:
+            part.violation(f"giant:{size}:{flat}", msg, {"kind": "giant", "size": size, "flat": flat})
+    return part
+
+
 def _chunk(args):
+    if args[0] == "giant":
+        return _giant_chunk(args[1])
     if args[0] == "similar":
         return _similar_chunk(args[1:])
     kind, items, flats = args
@@ -402,6 +461,8 @@ def run(ctx):
         jobs.append(("similar", chunk, [0.3, 1.0]))
     jobs.append(("needle", needle_node_lists(), None))
     jobs.insert(0, ("deep", deep_node_lists(), None))       # the long one first
+    # close to a million pieces from one call (a guard on the total size of the result)
+    jobs.insert(0, ("giant", [(5.0e8, 1.0e-3)], None))
     part = core.fan_out(ctx, _chunk, jobs)
     from .. import callforms              # pylint: disable=import-outside-toplevel
     part.merge(callforms.explore("C10"))
@@ -418,7 +479,7 @@ def run(ctx):
                 "every lattice curve with a repeated point again with equal points given as one shared "
                 "list object (flatness 0.3, 1.0); empty and single-node lists; six chained lists of 10..60 nodes; eight (thorough nine) of "
                 "255, 256, 257, 511, 512, 513, 1025, 1300 (4097) nodes; every 5th "
-                "one strongly curved piece at flatness 2^-23 (about 2^16 pieces, 16 halvings in a row); 36 x 2 long nearly straight pieces (flatness 4e-9 of the chord, control points 0.5..8 flatness units off it); (thorough: every) one-piece curve again unscaled but shifted by (2^31, -2^30), and scaled by 2^16 and shifted by (2^20, "
+                "one arch 5e8 units across at flatness 1e-3 (about 900 000 pieces, judged in floating point with a guard band); one strongly curved piece at flatness 2^-23 (about 2^16 pieces, 16 halvings in a row); 36 x 2 long nearly straight pieces (flatness 4e-9 of the chord, control points 0.5..8 flatness units off it); (thorough: every) one-piece curve again unscaled but shifted by (2^31, -2^30), and scaled by 2^16 and shifted by (2^20, "
                 "-2^21), which must give the image of the unscaled result; states = node lists observed after every "
                 "split; non-trivial = calls that split at least once; all inputs distinct",
         "samples": core.rotate(part.samples, ctx.seed, 4),
@@ -436,6 +497,8 @@ def replay(case):
     if case.get("kind") == "callform":
         from .. import callforms          # pylint: disable=import-outside-toplevel
         return callforms.replay(case)
+    if case["kind"] == "giant":
+        return run_giant(case["size"], case["flat"])[0]
     nodes = tuple(tuple(tuple(p) for p in n) for n in case["nodes"])
     if case["kind"] == "similar":
         return [m for _c, m in check_similarity(nodes, case["flat"])]
